@@ -50,6 +50,11 @@ func parseContentRange(h http.Header) (start, end int64, err error) {
 	}
 	// Note, no need to check for negative because the "-" would cause the
 	// Split check to fail.
+	if start > end {
+		return 0, 0, handler.Errorf(
+			"invalid Content-Range header %q: start is greater than end", contentRange).
+			Status(http.StatusBadRequest)
+	}
 	return start, end, nil
 }
 
